@@ -168,8 +168,8 @@ func init() {
 		v.onoff = v.def == 0 && c.Bool()
 		placement := c.Choose(c16NPlacements)
 		ci := c.Choose(len(c16Chains))
-		gen := c.Choose(3)       // 0 WriteHelp after a parse selecting the chain, 1 the ErrHelp text, 2 man page
-		late := c.Choose(2) == 1 // rm is hidden and hidcmd un-hidden through their public Hidden fields after a first rendering (and a field's value changed)
+		gen := c.Choose(3)                                              // 0 WriteHelp after a parse selecting the chain, 1 the ErrHelp text, 2 man page
+		late := c.Choose(2) == 1                                        // rm is hidden and hidcmd un-hidden through their public Hidden fields after a first rendering (and a field's value changed)
 		given := gen == 1 && !v.onoff && !v.choices && c.Choose(2) == 1 // the help request follows an occurrence of U with a value
 		if gen == 2 && ci != 0 {
 			c.Skip() // the man page covers the whole tree whatever is active
@@ -205,6 +205,25 @@ func init() {
 				b.Parser.WriteManPage(&sink)
 			}()
 			first.SetString("I")
+			// one level down, where no command is hidden by a tag: barecmd's only subcommand is hidden through its public field
+			if leaf := b.Parser.Find("barecmd").Find("leafcmd"); leaf != nil {
+				leaf.Hidden = true
+				var hb bytes.Buffer
+				func() {
+					defer func() { recover() }()
+					b.Parser.ParseArgs([]string{"pa", "pb", "barecmd"}) // (fails: a subcommand is required; the chain is selected all the same)
+					b.Parser.WriteHelp(&hb)
+				}()
+				b.Parser.Active = nil
+				if !strings.Contains(hb.String(), "BARECDESC") && !strings.Contains(hb.String(), "barecmd") {
+					c.Fail("harness-help-of-barecmd-not-rendered", hb.String())
+					return
+				}
+				if strings.Contains(hb.String(), "LEAFCDESC") || strings.Contains(hb.String(), "leafcmd") {
+					c.Fail("command-hidden-later-still-shown|help|level-without-tag-hidden-commands", excerpt(hb.String(), "leafcmd"))
+					return
+				}
+			}
 			b.Parser.Find("rm").Hidden = true
 			b.Parser.Find("hidcmd").Hidden = false
 			c.Hit("late-hidden-toggle")
@@ -221,6 +240,11 @@ func init() {
 			}()
 			switch gen {
 			case 0:
+				if placement%2 == 1 {
+					// on every other placement the program renders the help itself and the parser carries no HelpFlag
+					b.Parser.Options &^= flags.HelpFlag
+					c.Hit("WriteHelp-without-HelpFlag")
+				}
 				b.Parser.ParseArgs(argv) // may fail for a missing required option: the active chain is set all the same
 				var buf bytes.Buffer
 				b.Parser.WriteHelp(&buf)
@@ -484,7 +508,7 @@ func init() {
 			"nothing of a hidden option / hidden group / hidden or inactive command appears, a masked default's real value never appears; the fixed part of the declaration (bystander options, one of them with a long name and a value name of a single character each and a 154-character word in its description (complete after undoing the hyphen breaks), another whose whole description is one character, a positional argument and a command (with an alias) described by one character each, an option whose default is the one-character string its field holds, described positionals, commands with aliases, hidden command and group, a command without options of its own whose subcommand has one, a described command with a multi-byte name, a func(string) option with a description) is checked on every leaf; " +
 			"distinct = distinct (generator, visible?, placement, chain, markers present)",
 		Assumptions:  []string{"not demanded of the man page: choices, positional arguments, env beside a default (man.go never rendered them)", "help of an active hidden command is not defined by the statement and is skipped"},
-		RequiredHits: []string{"visible|help", "invisible|help", "visible|man", "invisible|man", "value-given-before-help"},
+		RequiredHits: []string{"WriteHelp-without-HelpFlag", "visible|help", "invisible|help", "visible|man", "invisible|man", "value-given-before-help"},
 		Bound:        [2]string{"complete product", "complete product"},
 		BudgetS:      [2]int{170, 600},
 	})
